@@ -123,7 +123,7 @@ pub fn run_example_arm(arm: &str, seed: u64, run: u64, agg: &mut Agg, explicit: 
         None => {
             let mut irng = rng.fork(7);
             let inst = (spec.generate)(&mut irng);
-            let width = *rng.pick(&[Some(1), Some(2), Some(3), None]);
+            let width = *rng.pick(&[Some(1), Some(1), Some(2), Some(3), None]); // relaxation-side defects mostly show at the narrowest width
             let threads = *rng.pick(&[1usize, 2, 4]);
             (inst, width, threads, rng.next(), None)
         }
